@@ -151,6 +151,28 @@ fn scaled(kind: &str, n: usize) -> Vec<u8> {
     s.into_bytes()
 }
 
+/// every small combination of `use` / `reuse` hrefs (`^`, an id, itself, each other), with and without an id
+/// on the referring element, followed by elements that refer to them by `^` or by id: the chains that
+/// `get_target_element` follows, including the cyclic ones - each must end with a result or an error
+fn ref_chain_docs() -> Vec<Vec<u8>> {
+    let mut out = vec![];
+    for first in ["<rect id=\"a\" wh=\"4\"/>", "<rect wh=\"4\"/>"] {
+        for kind in ["use", "reuse"] {
+            for h1 in ["^", "#a", "#u", "#v"] {
+                for id1 in ["", " id=\"u\""] {
+                    for second in ["", "<KIND id=\"v\" href=\"^\"/>", "<KIND id=\"v\" href=\"#u\"/>", "<KIND href=\"#v\"/>", "<KIND id=\"v\" href=\"#v\" x=\"1\"/>"] {
+                        for last in ["<rect xy=\"^|h 5\" wh=\"5\"/>", "<rect xy=\"#u|h 5\" wh=\"5\"/>", "<line start=\"^\" end=\"#a\"/>", "<rect surround=\"^\"/>"] {
+                            let d = format!("<svg>{first}<{kind}{id1} href=\"{h1}\" x=\"20\"/>{}{last}</svg>", second.replace("KIND", kind));
+                            out.push(d.into_bytes());
+                        }
+                    }
+                }
+            }
+        }
+    }
+    out
+}
+
 fn judge_isolated(rep: &mut Report, st: &mut Stream, cases: &[Vec<u8>], tags: &[String], per_case: Duration, loop_limit: u32) {
     let rs = run_isolated(cases, loop_limit, per_case);
     for ((c, r), tag) in cases.iter().zip(rs.iter()).zip(tags.iter()) {
@@ -453,6 +475,12 @@ pub fn run(rep: &mut Report, tier: &str, seed: u64) -> Result<(), String> {
         }
     }
     judge_isolated(rep, &mut st, &cases, &tags, Duration::from_secs(80), 1000);
+    rep.streams.push(st);
+
+    let mut st = Stream::new("chains/href", "oracle", "all 640 small documents combining a use / reuse whose href is `^`, an id, itself or a second use / reuse (with and without ids, cycles included) with a later element that refers to it by `^` or by id (position, connector, surround): each in a child process with a 10 s limit, result or error required");
+    let cases = ref_chain_docs();
+    let tags: Vec<String> = cases.iter().map(|_| "chains:href".to_string()).collect();
+    judge_isolated(rep, &mut st, &cases, &tags, Duration::from_secs(10), 1000);
     rep.streams.push(st);
 
     let mut drv = Driver::start()?;
